@@ -784,6 +784,10 @@ func TestC12Live(t *testing.T) {
 		if r.Key == "" {
 			return true
 		}
+		if strings.HasPrefix(r.Key, "C12/harness/") {
+			rep.Label("harness-problem:"+r.Key, 1) // the plan did not get going: no verdict
+			return true
+		}
 		if verifkit.Known(r.Key) {
 			rep.Exclude(r.Key)
 			return true
@@ -794,6 +798,10 @@ func TestC12Live(t *testing.T) {
 	}
 	single := func(p *C12LPlan) c12lResult {
 		rs, died, tail := c12lChild([]*C12LPlan{p})
+		if died && (strings.Contains(tail, "test timed out") || (!strings.Contains(tail, "panic:") && !strings.Contains(tail, "fatal error:"))) {
+			// no results and no crash report: the child ran out of time or was killed from outside
+			return c12lResult{Key: "C12/harness/child-ended", What: tail, Flags: map[string]bool{}}
+		}
 		if died {
 			return c12lResult{Key: "C12/process-died", What: "the node process died while untrusted peers were acting (" + describeC12L(p) + "): " + tail, Flags: map[string]bool{"untrusted-handshake-reached": true}}
 		}
